@@ -330,6 +330,34 @@ var vOverlap bool
 
 func init() { vReg("H_C09_overlap", H_C09_overlap) }
 
+func init() { vReg("H_C09_acceptstep", H_C09_acceptstep) }
+
+// Inductive step of the accept loop: after any number p of earlier connections (the
+// loop's counter starts from an arbitrary value), the next connection gets the ID p+1,
+// its requests and OnClose report it, and Run goes on accepting.
+func H_C09_acceptstep() {
+	p := vInt("earlierConnections")
+	vAssume(p >= 0 && p < 1<<62)
+	vLoopInit("(*github.com/jimlambrt/gldap.Server).Run", "connID", p)
+	v := vNewSrv()
+	seen := -1
+	vAssume(v.mux.Delete(func(w *ResponseWriter, r *Request) { seen = r.ConnectionID() }) == nil)
+	nc := vNetConn("c1")
+	vConnFeed(nc, vWire(refEnvelope(1, refDeleteOp(), nil)))
+	vEnvAccept(nc)
+	v.goRun()
+	vQuiesce()
+	vAssertE(!v.ranRun, "Run keeps accepting after the connection")
+	vAssertE(seen == p+1 && seen > 0, "the connection after p earlier ones has the ID p+1")
+	v.mu.Lock()
+	vAssertE(len(v.closes) == 1 && v.closes[0] == p+1, "OnClose reports that ID")
+	v.mu.Unlock()
+	v.goStop()
+	vQuiesce()
+	vAssertE(v.ranRun && v.runErr == nil, "Run returns nil after Stop")
+	vReach("accept step")
+}
+
 func vIDs(extra int) {
 	vSchedFork(1)
 	if vOverlap {
